@@ -418,9 +418,15 @@ func (s *Stream) fillDataToReadBuffer(buf bufferSliceWrapper) error {
 			gopool.Go(func() {
 				for {
 					s.pendingData.moveTo(s.recvBuf)
-					for s.IsOpen() && s.recvBuf.Len() > 0 {
+					for s.offerToCallback() && s.recvBuf.Len() > 0 {
+						unread := s.recvBuf.Len()
 						callback.OnData(s.recvBuf)
+						progressed := s.recvBuf.Len() < unread
 						s.pendingData.moveTo(s.recvBuf)
+						// the peer had closed: nothing more will arrive, so stop once OnData makes no progress
+						if !progressed && !s.IsOpen() {
+							break
+						}
 					}
 
 					vpo(vpCbBeforeStore0, s, 0)
@@ -443,6 +449,14 @@ func (s *Stream) fillDataToReadBuffer(buf bufferSliceWrapper) error {
 	}
 
 	return nil
+}
+
+// offerToCallback reports whether buffered data should still be handed to OnData:
+// the stream is open, or only the peer has closed it (data flushed before the peer's close must not be dropped).
+func (s *Stream) offerToCallback() bool {
+	state := s.getStreamState()
+	return state == uint32(streamOpened) ||
+		(state == uint32(streamHalfClosed) && atomic.LoadUint32(&s.localCloseDeferred) == 0)
 }
 
 // SetDeadline sets the read timeout for blocked and future Read calls.
